@@ -52,7 +52,8 @@ def main():
                 p = os.path.join(REPO, ed["file"])
                 s = open(p).read()
                 n = s.count(ed["old"])
-                assert n == ed.get("count", 1), f"{m['id']}: pattern occurs {n} times in {ed['file']}"
+                if n != ed.get("count", 1):
+                    raise RuntimeError(f"{m['id']}: pattern occurs {n} times in {ed['file']}")
                 s = s.replace(ed["old"], ed["new"])
                 open(p, "w").write(s)
             t0 = time.time()
@@ -66,6 +67,8 @@ def main():
             row = {"id": m["id"], "prop": m["prop"], "what": m["what"], "exit": r.returncode, "violations": len(viol), "classes": classes, "wall_s": round(dt, 1)}
             if r.returncode == 2:
                 row["stderr"] = r.stderr[-600:]
+        except RuntimeError as e:
+            row = {"id": m["id"], "prop": m["prop"], "what": m["what"], "exit": -2, "violations": 0, "classes": [], "wall_s": 0, "stderr": str(e)}
         finally:
             subprocess.run(["git", "-C", REPO, "checkout", "--", "."], check=True)
         rows.append(row)
